@@ -3,7 +3,8 @@
 1. TLC checks the clauses of C05 (and that the controller's inspections, action Inspect, leave the workflow unchanged) (ExactInstances, CarriedFromPrevious, OthersFromOriginal, SameIterationInside,
    NoStageDrift, LatestIsHighest, AggregateInOrder, OutsideResolution, ConditionFromNewest) on every reachable state of the unrolling state
    machine for every document shape of the family (import stage, 1-2 looped components, body stages, with/without
-   loopBindings and which component carries them, condition producer (a looped component or a separate one, in either
+   loopBindings and which component carries them, the binding naming the producer's stdout or a FILE of it with
+   :output / :ref / :copy, condition producer (a looped component or a separate one, in either
    document stage), replication inside the loop, names one of which
    ends in the other, the same document imported twice) up to MaxK >= 12 iterations; coverage guard on Iterate; the
    named deviation LexAgreesWithNumeric is run with the expectation of a violation (witness that the model reaches
@@ -92,13 +93,17 @@ def dowhile_doc(sh):
     n = names_of(sh)
     fm = fixmeth(sh)
     fixref = "%s:%s" % (n["fix"], fm)
-    doc = {"type": "DoWhile", "inputBindings": {"inp": {"type": "output"}, n["fix"]: {"type": fm}}}
+    im = sh.get("meth", "output")
+    ifile = "/state.txt" if sh.get("file") else ""
+    doc = {"type": "DoWhile", "inputBindings": {"inp": {"type": im}, n["fix"]: {"type": fm}}}
     if sh["carry"] != "none":
-        doc["loopBindings"] = {"inp": "stage%d.%s:output" % (body(sh, sh["carry"]), n[sh["carry"]])}
+        b = body(sh, sh["carry"])
+        # the value of a loop binding may name a file of the looped component; spelled without its stage in document stage 0
+        doc["loopBindings"] = {"inp": "%s%s%s:%s" % ("stage%d." % b if (b or not ifile) else "", n[sh["carry"]], ifile, im)}
     cr = sh["cond"]
     doc["condition"] = cond_ref(sh, body(sh, cr), n[cr])
-    w = {"name": n["W"], "stage": sh["sw"], "command": {"executable": "echo", "arguments": "inp:output %s" % fixref},
-         "references": ["inp:output", fixref]}
+    w = {"name": n["W"], "stage": sh["sw"], "command": {"executable": "echo", "arguments": "%s %s" % ("state.txt" if im == "copy" else "inp:%s" % im, fixref)},      # a :copy reference is staged, not substituted
+         "references": ["inp:%s" % im, fixref]}
     if sh["repl"]:
         w["workflowAttributes"] = {"replicate": sh["repl"]}
     comps = [w]
@@ -145,7 +150,8 @@ def main_doc(sh):
         comps.append(echo("pad%d" % s, s))          # no empty stage
     for d in loops(sh):
         comps.append({"name": "loop%d" % d, "stage": off(sh, d), "$import": "dowhile.yaml",
-                      "bindings": {"inp": "stage0.gen:output", n["fix"]: "stage0.src:%s" % fixmeth(sh)}})
+                      "bindings": {"inp": "stage0.gen%s:%s" % ("/state.txt" if sh.get("file") else "", sh.get("meth", "output")),
+                                   n["fix"]: "stage0.src:%s" % fixmeth(sh)}})
     for d in loops(sh):
         for m in METHS:
             refs = [x[1] for x in consumer_refs(sh, d, m)]
@@ -169,7 +175,7 @@ def ref_producer(sh, q):
 
 
 def ref_str(sh, q):
-    return "%s:%s" % (ref_producer(sh, q), q["meth"])
+    return "%s%s:%s" % (ref_producer(sh, q), "/state.txt" if q.get("file") else "", q["meth"])
 
 
 def expected_args(sh, x):
@@ -181,6 +187,8 @@ def expected_args(sh, x):
     if x["role"] == "S":
         return " ".join(ref_str(sh, q) for q in x["refs"]) or "hello"
     if x["role"] == "W":
+        if sh.get("meth") == "copy":
+            return "state.txt " + " ".join(ref_str(sh, q) for q in fix)
         toks = inp + fix
     else:
         toks = fix + ws
@@ -566,7 +574,8 @@ def label_of(sh):
     return "off%d%s-sw%d-sa%d-carry%s-cond%s%s%s%s%s" % (sh["off"], "-aux" if sh["aux"] else "", sh["sw"], sh["sa"], sh["carry"], sh["cond"],
                                                          "-sc%d" % sh["sc"] if sh["cond"] == "S" else "",
                                                        "-repl%d" % sh["repl"] if sh["repl"] else "", "-tricky" if sh["names"] == "tricky" else "",
-                                                       "-twin" if sh["twin"] else "")
+                                                       "-twin" if sh["twin"] else "") + (
+        "-inp_%s%s" % (sh.get("meth"), "_file" if sh.get("file") else "") if (sh.get("file") or sh.get("meth", "output") != "output") else "")
 
 
 def cfg_text(maxk, maxk2, offsets, names, repls, twins, emit, invariants=True, extra=""):
@@ -649,6 +658,8 @@ def run(tier):
         # 3 iterations for the others (thorough: all of them >= 13)
         full = thorough or (not sh["twin"] and ((sh["off"] == 1 and (sh["cond"] != "S" or sh["sc"] == 1)) or
                                                 (not sh["aux"] and sh["cond"] != "S")))
+        if sh.get("file") and not thorough:
+            full = sh["off"] == 1 and not sh["aux"]        # file variants of the binding: 12 unrollings for the one-component loops
         if thorough:
             km = maxk if (sh["off"] == 1 and sh["names"] == "plain") else 13
         else:
